@@ -14,6 +14,7 @@ import (
 	"oras.land/oras-go/v2/content"
 	"oras.land/oras-go/v2/errdef"
 
+	"verif/harness/fsx"
 	"verif/harness/gen"
 	"verif/harness/model"
 	"verif/harness/vt"
@@ -133,4 +134,54 @@ func BlobFiles(dir string) ([]string, error) {
 	}
 	sort.Strings(out)
 	return out, nil
+}
+
+// IndexedSet returns the stored nodes reachable (through the generator's edges, over
+// stored nodes) from the entries of dir/index.json - what an OCI layout "contains"
+// as far as a reader of the directory can tell.
+func IndexedSet(dir string, d *gen.DAG, stored map[int]bool) (map[int]bool, error) {
+	idx, err := fsx.ReadIndex(dir)
+	if err != nil {
+		return nil, err
+	}
+	byDigest := map[string][]int{}
+	for _, id := range d.CanonIDs() {
+		byDigest[d.Nodes[id].Desc.Digest.String()] = append(byDigest[d.Nodes[id].Desc.Digest.String()], id)
+	}
+	out := map[int]bool{}
+	var visit func(id int)
+	visit = func(id int) {
+		if out[id] || !stored[id] {
+			return
+		}
+		out[id] = true
+		for _, e := range d.Nodes[id].Edges {
+			visit(e.To)
+		}
+	}
+	for _, m := range idx.Manifests {
+		for _, id := range byDigest[m.Digest] {
+			visit(id)
+		}
+	}
+	return out, nil
+}
+
+// CheckPredsView is CheckPreds for a reopened view of an OCI layout. A predecessor
+// that the view omits although it is stored, while it is NOT reachable from any
+// index.json entry (an orphan manifest), is reported under the dedicated key
+// prop+"/reopen-omits-unindexed-manifest"; every other difference is a plain mismatch.
+func CheckPredsView(ctx context.Context, pf PredFinder, d *gen.DAG, stored map[int]bool, dir, prop, when string) *vt.Fail {
+	f := CheckPreds(ctx, pf, d, stored, prop, when)
+	if f == nil {
+		return nil
+	}
+	indexed, err := IndexedSet(dir, d, stored)
+	if err != nil {
+		return f
+	}
+	if CheckPreds(ctx, pf, d, indexed, prop, when) == nil {
+		return vt.Failf(prop+"/reopen-omits-unindexed-manifest", "%s: the reopened store's Predecessors are exact for the manifests reachable from index.json but omit stored manifests no index entry reaches: %s", when, f.Msg)
+	}
+	return f
 }
